@@ -113,6 +113,21 @@ def cases(ctx):
                     steps += [["rx", probe + "\n"] for probe in probes]
                     yield {"version": version, "steps": steps}
     ctx.exhaustive["type-table-and-scale-cases"] = count
+    # every Config option this harness does not know, set to a non-default value: what an option may legitimately change
+    # is unknown (it may filter what is yielded, it may add writes), but no option makes the registry forget what nodes
+    # reported or lets a message for an unknown node / child pass as handled - only those two rules are judged here
+    from ..harness import unknown_options
+
+    for extra in unknown_options():
+        for version in [None, *VERSIONS]:
+            sweeps = [histories.presentation_type_sweep([*range(0, 40), 99, -1]),
+                      histories.type_table_sweep([0, 5, 9, 13, 39], list(range(0, 57))),
+                      histories.wide_unknown_nodes(17),
+                      histories.rich_history(rng, version, 150), histories.rich_history(rng, version, 150)]
+            for steps in sweeps:
+                if ctx.mine():
+                    yield {"version": version, "steps": steps, "config_extra": extra,
+                           "only_keys": ["registry-differs", "missing-ref-not-rejected", "missing-ref-changed-registry"]}
     for i in range(ctx.pick(400, 20000) // ctx.shard_count):
         version = [None, *VERSIONS][i % 6]
         yield histories.with_reply_faults(rng, {"version": version,
